@@ -23,10 +23,18 @@
    ([stalled_handler_resumes_and_answers]: a handler that resumes answers its caller within seven
    steps); each needs only the goroutines and frames of its own call; a chain of depth 2 in both
    directions at once is exhibited in Props/C01.v ([both_directions_nested], Duo.v).
-   NOT proved (part (b)): the induction that strings these moves together for every depth, with
-   application handlers that issue the next call as part of the model (handlers are opaque here:
-   "the handler resumes" is a step the schedule chooses); decided by the nesting workloads. *)
-From Verif Require Import Base Link LinkProofs LinkInvB LinkInvK LinkInvQ LinkFrame Pair PairProofs PairProgress.
+   Part (b), the induction over the depth (DuoChain.v, both directions networked): [chain_completes] —
+   from EVERY reachable state of the closed system in which both endpoints are up and k calls are
+   stacked (each waits for its response, its peer's handler being inside application code, where it
+   issued the next one; any pattern of directions, alternating chains included), for EVERY k, there is a
+   schedule of at most 8k steps - only steps of the chain's own goroutines and deliveries of its own
+   response frames - in which every call of the chain returns, innermost first.  The premises say
+   nothing about any other goroutine of either endpoint.  [chain_state_reachable] exhibits a reachable
+   state with an alternating chain of depth 3.
+   What stays outside the model: application code is opaque in Link.v - "the handler resumes once the
+   call it made has returned" is a step the schedule takes, not a consequence of a handler program; and
+   the fairness that makes the scheduler actually take these steps is the Go runtime's. *)
+From Verif Require Import Base Link LinkProofs LinkInvB LinkInvK LinkInvQ LinkFrame LinkUp LinkChain Pair PairProofs PairProgress Duo DuoChain.
 
 Theorem request_loop_never_waits_for_handlers :
   forall calls s f arg,
@@ -196,3 +204,52 @@ Theorem undisturbed_example :
     In (EvReturn 1 71%N None) (evs s') /\ KeepC 0 0 s' /\ KeepH 0 5%N s'.
 Proof. exact frame_example. Qed.
 Print Assumptions undisturbed_example.
+
+(* ---- part (b): every depth ---- *)
+
+(* a caller that waits with its waiter goroutine not yet run is completed by the response frame and its own
+   goroutines, whatever the waiter finds when it runs (nothing, an earlier duplicate, a cancelled call
+   context, a released entry) *)
+Theorem waiting_caller_completes :
+  forall calls s i ent x e,
+    lreachable fixed calls s -> bclosed s = false ->
+    tget (threads s) TResLoop = Some RLReading -> memN 0%N (cancelled s) = false -> f_unmarshal (flt s) = None ->
+    tget (threads s) (TCall i) = Some CBlocked -> tget (threads s) (TWaiter i) = Some (WStart ent) ->
+    exists cs s' v er,
+      length cs <= 7 /\ Forall (completes_own s i x e) cs /\ lrun fixed calls s cs = Some s' /\
+      tget (threads s') (TCall i) = Some (CReturned v er).
+Proof. exact waiting_caller_completes_lemma. Qed.
+Print Assumptions waiting_caller_completes.
+
+(* while nothing goes wrong both endpoints stay up: healthy and both reader loops at their reads *)
+Theorem endpoint_stays_up :
+  forall calls cs s s', Up s -> Forall (fun c => LinkHealthy.benign (fst c) = true) cs ->
+    lrun fixed calls s cs = Some s' -> Up s'.
+Proof. exact Up_run. Qed.
+Print Assumptions endpoint_stays_up.
+
+Theorem chain_completes :
+  forall fnA fnB callsA callsB levels l0 d,
+    drun fnA fnB callsA callsB dinit l0 = Some d -> Up (da d) -> Up (db d) ->
+    Forall (LevelOk d) levels -> ForallOrdPairs distinct levels ->
+    exists l d', completes fnA fnB callsA callsB d levels l d' /\ length l <= 8 * length levels /\
+                 drun fnA fnB callsA callsB d l = Some d' /\ Up (da d') /\ Up (db d').
+Proof. exact chain_completes_lemma. Qed.
+Print Assumptions chain_completes.
+
+Theorem chain_state_reachable :
+  exists d, drun ch_fn ch_fn ch_callsA ch_callsB dinit (ch_setup ++ ch_build) = Some d /\
+            Up (da d) /\ Up (db d) /\ Forall (LevelOk d) ch_levels /\ ForallOrdPairs distinct ch_levels.
+Proof. exact chain_state_reachable_lemma. Qed.
+Print Assumptions chain_state_reachable.
+
+(* the alternating chain of depth 3 completes *)
+Theorem depth_three_chain_completes :
+  exists d l d', drun ch_fn ch_fn ch_callsA ch_callsB dinit (ch_setup ++ ch_build) = Some d /\
+                 completes ch_fn ch_fn ch_callsA ch_callsB d ch_levels l d' /\ length l <= 24.
+Proof.
+  destruct chain_state_reachable_lemma as (d & Hr & HUa & HUb & Hok & Hdis).
+  destruct (chain_completes_lemma ch_fn ch_fn ch_callsA ch_callsB ch_levels _ d Hr HUa HUb Hok Hdis) as (l & d' & Hc & Hl & _).
+  exists d, l, d'. split; [exact Hr|]. split; [exact Hc|exact Hl].
+Qed.
+Print Assumptions depth_three_chain_completes.
